@@ -837,4 +837,6 @@ def show(t) -> str:
         return f"<?{t[1]}#{t[2]}>"
     if k == "star":
         return "*" + show(t[1])
+    if k == "accum":
+        return show(t[1]) + " ++ [" + ", ".join(f"{show(i[2])} if {show(i[1])}" + ("*" if i[3] else "") for i in t[2]) + "]"
     return "<" + " ".join(show(x) if isinstance(x, tuple) else repr(x) for x in t) + ">"
